@@ -61,6 +61,9 @@ func gate(op, path, path2 string, write bool, flags int) (int, error) {
 	s.mu.Lock()
 	defer s.mu.Unlock()
 	o := Op{Op: op, Path: absClean(path), Write: write, Flags: flags}
+	if write {
+		o.Real = resolve(path)
+	}
 	if path2 != "" {
 		o.Path2 = absClean(path2)
 	}
